@@ -183,7 +183,7 @@ def count_runs(ctx, tf, want_samples=2):
         ctx.count(cur, nontrivial=nres > 1)
 
 
-def reader_check(ctx, mode, mc_args, drivers, gen_args=None, l1=True, thorough_mc_args=None, need=()):
+def reader_check(ctx, mode, mc_args, drivers, gen_args=None, l1=True, thorough_mc_args=None, need=(), lb=False):
     args = mc_args if ctx.quick or not thorough_mc_args else thorough_mc_args
     if args:
         mc_reader(ctx, mode, *args)
@@ -227,6 +227,8 @@ def reader_check(ctx, mode, mc_args, drivers, gen_args=None, l1=True, thorough_m
             jobs.append(("verdict", d, tf, ex.submit(C.tlc_trace, nm, "ReaderTrace", tf, None, ctx.devs, 3000, "4g", env)))
             if l1:
                 jobs.append(("l1", d, tf, ex.submit(C.tlc_trace, nm + "_L1", "ReaderTrace", tf, None, "", 3000, "4g", {"MODE": "L1"})))
+            if lb:   # conformance with the windowed reader ReaderBuf under the recorded schedule (buffer offset, position, length, capacity)
+                jobs.append(("lb", d, tf, ex.submit(C.tlc_trace, nm + "_LB", "ReaderTrace", tf, None, "", 3000, "4g", {"MODE": "LB"})))
     div = 0
     for kind, d, tf, fut in jobs:
         tr = fut.result()
@@ -236,8 +238,8 @@ def reader_check(ctx, mode, mc_args, drivers, gen_args=None, l1=True, thorough_m
             if not tr["consumed"]:
                 raise C.ToolError("L1 validation did not consume " + tf)
             div += len(tr["rejects"])
-            ctx.extra.setdefault("level1_conformance", []).append({"trace": d, "events": tr["states"] - 1, "model_divergence": len(tr["rejects"]),
-                                                                   "first": tr["rejects"][:2]})
+            ctx.extra.setdefault("level1_conformance" if kind == "l1" else "readerbuf_conformance", []).append(
+                {"trace": d, "events": tr["states"] - 1, "model_divergence": len(tr["rejects"]), "first": tr["rejects"][:2]})
     ctx.extra["model_divergence_total"] = div
     ctx.assumptions += [
         "verdicts come from the property specification spec/props/P_%s.tla evaluated by TLC on recorded events (mode %s of trace/ReaderTrace.tla); Level 1 (ReaderCore) conformance is reported as a statistic (model_divergence), never as a violation" % (mode, mode),
@@ -328,7 +330,7 @@ def c04(ctx):
         rb = C.tlc_mc("C04_" + nm, "MC_ReaderBuf", cfg(constants={"Caps": "{16, 17}" if ctx.quick else "{16, 17, 20, 64}", "MaxDoc": maxdoc, "WithPauses": pauses},
                       invariants=["Refines", "WinInv", "CapInv"]), workers=8, timeout=3000, heap="12g", coverage=False)
         ctx.add_mc(rb)
-    reader_check(ctx, "C04", None, ["reader:sched", "reader:sched_smallcap", "reader:cut"], gen_args=None)
+    reader_check(ctx, "C04", None, ["reader:sched", "reader:sched_smallcap"], gen_args=None, l1=False, lb=True)
     ctx.rule = "one evaluation = one run; each case holds the reference run (whole input at once) and runs under read schedules (every partition for inputs <= 8 bytes quick / 11 thorough, random otherwise), capacities 0..4096 and temporary EOFs at tag boundaries; relation P_C04 (equal results incl. first error)"
 
 
@@ -427,7 +429,7 @@ def c10(ctx):
     mc_writer(ctx, ["Inv_C10"], 4, "all")
     if not ctx.quick:
         mc_writer(ctx, ["Inv_C10"], 5, "core", name="MC_Writer5")
-    writer_check(ctx, "C10", ["writer:calls", "writer:rt", "writer:present"])
+    writer_check(ctx, "C10", ["writer:calls", "writer:rt_small", "writer:present"])   # the monitor re-parses the destination after every call: no 16 KiB payloads here
     ctx.rule = "one evaluation = one writer run observed after every call (result, bytes handed to the destination); the monitor P_C10 re-parses the destination with the reader design at every quiescent point"
 
 
